@@ -92,7 +92,7 @@ func (s *SS) Run(c *scen.Ctx) {
 	// the transport: the stream handler, or the datagram handler with its single receive loop;
 	// and, for streams, a graceful shutdown that arrives while requests are still queued
 	s.proto = []string{"tcp", "tcp", "udp"}[simrt.Draw(3, "c19s.proto")]
-	s.shutdown = s.proto == "tcp" && simrt.Draw(3, "c19s.shutdown") == 2
+	s.shutdown = simrt.Draw(3, "c19s.shutdown") == 2
 	simnet.Cfg.UDPDup, simnet.Cfg.UDPLoss = false, false
 	shutAfter := time.Duration(simrt.Draw(40, "c19s.shutafter")) * time.Millisecond
 	c.Describe("proto", s.proto)
@@ -187,6 +187,22 @@ func (s *SS) Run(c *scen.Ctx) {
 	wg.Wait()
 	if s.shutdown {
 		simrt.Sleep(shutAfter)
+		if s.proto == "udp" {
+			// datagrams keep arriving while the server shuts down, also in the very instants in which
+			// the shutdown poller looks whether anything is still being handled
+			simrt.GoNamed("latesender", func() {
+				u, err := simnet.ListenUDP("udp", nil)
+				if err != nil {
+					return
+				}
+				sa, _ := simnet.ResolveUDPAddr("udp", saddr)
+				for j := 1; j <= 8; j++ {
+					simrt.Sleep(500 * time.Millisecond)
+					u.WriteToUDP(refcodec.EncodeRequest(&refcodec.Request{Version: 1, RequestID: int32(900 + j), Servant: "App.Srv.Obj", Func: "work",
+						Buffer: []byte{0, 0, 99, byte(j)}, Timeout: 60000, Context: map[string]string{}, Status: map[string]string{}}), sa)
+				}
+			})
+		}
 		ctx, cancel := context.WithTimeout(context.Background(), total+20*time.Second)
 		if err := srv.Shutdown(ctx); err != nil {
 			s.shutErr = err.Error()
@@ -267,7 +283,9 @@ func (s *SS) Check(c *scen.Ctx, res *simrt.Result) {
 		if n := s.invoked[id]; n != 1 {
 			c.Fail("C19", map[bool]string{true: "not-executed", false: "ran-twice"}[n == 0], key, "request %d handed to a server with a pool of %d was executed %d times", id, s.size, n)
 		}
-		if n := s.answered[id]; n != 1 {
+		// (a datagram read in the instant in which the shutdown closes the socket is executed; its
+		// answer has nowhere to go)
+		if n := s.answered[id]; n != 1 && !(s.proto == "udp" && s.shutdown && n == 0) {
 			c.Fail("C19", "answer-count", key, "request %d was answered %d times", id, n)
 		}
 	}
